@@ -492,20 +492,24 @@ def estimate_with_prior_observations_is_least_squares_on_the_stacked_sample(K, o
 
 
 # ------------------------------------------------------------------------------ every variant is simulated with its own system
-@contract("C18", targets=[PS + "_simulate", "irispie.has_variants:Mixin.iter_variants", "irispie.has_variants:Mixin.new_with_shallow_variants"], instances=[(2,), (3,)], cross=0, opts={"max_paths": 200})
-def each_variant_is_simulated_with_its_own_estimates(K, nv):
+@contract("C18", targets=[PS + "_simulate", PS + "_simulate_exogenous_impact", "irispie.has_variants:Mixin.iter_variants", "irispie.has_variants:Mixin.new_with_shallow_variants"],
+          instances=[(2, False), (3, False), (2, True)], cross=0, opts={"max_paths": 200})
+def each_variant_is_simulated_with_its_own_estimates(K, nv, with_exogenous):
     """_simulate hands the flat simulator, for variant i, a single-variant view of the model whose system is the i-th
-    estimate and the i-th variant of the data (the simulator reads the solution from that view)."""
+    estimate and the i-th variant of the data (the simulator reads the solution from that view) - and, with exogenous
+    variables, the impact P_i (B_i x_i) computed from the i-th estimate and the i-th variant of the exogenous data."""
     span = ir.qq(2000, 1) >> ir.qq(2003, 4)
     rng = np.random.default_rng(3)
     db = ir.Databox()
-    for nme in ("a", "b"):
+    names = ("a", "b") + (("x",) if with_exogenous else ())
+    for nme in names:
         db[nme] = ir.Series(num_variants=nv, periods=span, values=rng.normal(size=(len(span), nv)))
-    m = ir.RedVAR(("a", "b"), order=1, intercept=True)
+    m = ir.RedVAR(("a", "b"), order=1, intercept=True, **({"exogenous_names": ("x",)} if with_exogenous else {}))
     out = m.estimate(db, span, num_variants=nv)
     K.ensure("the estimates of the variants differ (otherwise the contract says nothing)", all(not np.allclose(m._variants[0].system.A, m._variants[i].system.A) for i in range(1, nv)))
     ml = K.lift(m)
-    calls = K.capture(FSIM, "simulate_flat", lambda: K.call(SIM._simulate, ml, K.lift(out), tuple(span[2:6]), residuals_from_data=True, draw_residuals=None,
+    sim_span = tuple(span[2:6])
+    calls = K.capture(FSIM, "simulate_flat", lambda: K.call(SIM._simulate, ml, K.lift(out), sim_span, residuals_from_data=True, draw_residuals=None,
                                                             progress_bar_settings=dict(title="")))
     K.ensure("one simulator call per variant", len(calls) == nv)
     for i, (args, kwargs) in enumerate(calls):
@@ -514,3 +518,66 @@ def each_variant_is_simulated_with_its_own_estimates(K, nv):
         K.ensure(f"call {i}: the model view holds exactly one variant", len(vs) == 1)
         got = K.attr(K.attr(vs[0], "system"), "A") if len(vs) == 1 else None
         K.ensure(f"call {i}: ... and it is the {i}-th estimate", got is not None and np.allclose(np.asarray(K.concrete_array(got)), m._variants[i].system.A))
+        if with_exogenous:
+            impact = kwargs.get("exogenous_impact")
+            Bi = np.asarray(m._variants[i].system.B, dtype=float).reshape(2, -1)
+            have = None if impact is None else np.asarray(K.concrete_array(impact), dtype=float)
+            K.ensure(f"call {i}: an exogenous impact is handed over, one column per period of the simulated array", have is not None and have.ndim == 2 and have.shape[0] == 2)
+            if have is not None and have.ndim == 2:
+                # the simulated array starts one period (the initial condition of an order-1 VAR) before the span
+                xs = np.asarray(db["x"].get_data(tuple(span[1:6]), i), dtype=float).reshape(1, -1)
+                K.ensure(f"call {i}: the impact is B_{i} x_{i} of THIS variant in the rows of the current-dated variables",
+                         have.shape[1] == xs.shape[1] and np.allclose(have[:2, :], Bi @ xs, equal_nan=True))
+
+
+# ------------------------------------------------------------------------------ what estimate() returns, also into a databox that already holds results
+@contract("C18", targets=[PE + "Inlay.estimate", "irispie.dataslates.main:Dataslate.to_databox", "irispie.databoxes.main:Databox.__or__"],
+          instances=[(None,), ("stale",)], cross=0, opts={"max_paths": 400, "inline": ("irispie.series.main:Series.trim",)})     # concrete data: trim is executed, not summarised
+def estimate_returns_the_fresh_residuals(K, target):
+    """estimate(..., target_db=t): the returned databox holds the residuals of THIS estimation (whatever t held under the
+    same names), the input series of the span, and everything else t held; t itself is not modified."""
+    span = ir.qq(2000, 1) >> ir.qq(2001, 4)
+    rng = np.random.default_rng(11)
+    db = ir.Databox()
+    db["a"] = ir.Series(periods=span, values=rng.normal(size=len(span)))
+    m = ir.RedVAR(("a",), order=1, intercept=True)
+    fresh = [float(v) for v in np.arange(1, len(span) + 5) / 16]          # residuals "estimated" for the columns of the dataslate
+    seen = []
+
+    def estimate_variant(invariant, dataslate_v, **k):
+        names = list(K.items(K.attr(K.attr(dataslate_v, "_invariant"), "names")))
+        arr = K.method(dataslate_v, "get_data_variant")
+        ncol = K.shape(arr)[1]
+        seen.append(ncol)
+        row = names.index("res_a")
+        for c in range(ncol):
+            K.setitem(arr, (row, c), fresh[c])
+        return K.obj(VAR.Variant)
+    tgt = None
+    if target == "stale":
+        tgt = K.call(ir.Databox)
+        stale = K.lift(ir.Series(periods=span, values=np.full(len(span), 99.0)))
+        K.setitem(tgt, "res_a", stale)
+        K.setitem(tgt, "other", 7)
+    ml = K.lift(m)
+    out = K.stubbed(EST._estimate_variant, estimate_variant, "the estimator of one variant has its own contracts; here it is represented by known residuals",
+                    lambda: K.call(EST.Inlay.estimate, ml, K.lift(db), span, **({"target_db": tgt} if tgt is not None else {})))
+    K.ensure("one estimation, on an array of the periods the span needs", len(seen) == 1 and seen[0] in (len(span), len(span) + 1))
+    res = K.index(out, "res_a")
+    rd = np.asarray(K.concrete_array(K.attr(res, "data")), dtype=float).ravel()
+    K.ensure("the residual series returned is the one of this estimation", len(seen) == 1 and len(rd) == seen[0] and all(abs(v - f) < 1e-12 for v, f in zip(rd, fresh)))
+    K.ensure("no stale value survives", not any(abs(v - 99.0) < 1e-9 for v in rd))
+    if tgt is not None:
+        K.ensure("what else the target held is carried over", K.index(out, "other") == 7)
+        K.ensure("the target databox itself still holds its own series", K.index(tgt, "res_a") is stale and out is not tgt)
+
+
+# ------------------------------------------------------------------------------ every variant of the input data reaches its own estimation
+# estimate() reads the data of variant i through Dataslate.from_databox / Databox.iter_variants; the contract is the
+# databox -> dataslate -> databox round trip of C19 with two variants, registered here as the input step of estimate.
+from contracts.c19_databox import databox_dataslate_roundtrip as _roundtrip   # noqa: E402
+
+contract("C18", name="every_variant_of_the_data_reaches_its_own_estimation",
+         targets=["irispie.dataslates.main:Dataslate.from_databox", "irispie.databoxes.main:Databox.iter_variants",
+                  "irispie.series.main:Series.iter_data_variants_from_until"],
+         instances=[(2, None)], opts={"max_paths": 8000})(_roundtrip)
